@@ -129,10 +129,10 @@ fn parts(ctx: &Ctx) -> Vec<PartSpec> {
     v
 }
 
-fn run(_ctx: &Ctx, spec: &PartSpec) -> PartResult {
+fn run(ctx: &Ctx, spec: &PartSpec) -> PartResult {
     let mut res = PartResult::new(&spec.name, "E2");
     if let Some(s) = spec.arg["loom"].as_str() {
-        vcore::loompart::run(s, spec.arg["pb"].as_u64(), &mut res);
+        vcore::loompart::run_with_budget(s, spec.arg["pb"].as_u64(), ctx.budget_s, &mut res);
     } else {
         process_part(&mut res, spec.arg["racers"].as_u64().unwrap_or(2) as usize);
     }
